@@ -182,6 +182,8 @@ enum OpId
   CF_DRIFT_ADD, CF_DRIFT_DEL, CF_OPTCST_SET, CF_OPTCST_BACK, CF_OLDSTYLE_OFF, CF_OLDSTYLE_ON,
   // do + request + undo in one call (the content is the same before and after)
   PAIR_FILT0_OPTIM_AA, PAIR_FILT1_SYM_B, PAIR_OPTIMOFF_OPTIM_AB, PAIR_RANGE_OPTIM_AB, PAIR_DRIFT_KRIG_U, PAIR_OLDSTYLE_DRAWS, PAIR_OPTCUSTOM,
+  // degenerate arguments of a function that installs its own seed and must restore the caller's
+  OP_MVN_UNBOUNDED, OP_MVN_N101,
   NOPS
 };
 static const int FIRST_NEW_OP = OP_OPTIM_AB_MODE0;
@@ -196,7 +198,7 @@ static const OpInfo OPS[NOPS] = {
   {"kriging(BLOCK without ndiscs)[fails in run]", "kriging"}, {"kriging(matLC of wrong size)[fails in run]", "kriging"},
   {"krigtest(A->G,Moving,iech0=4,verbose)", "krigtest"}, {"xvalid(A,Unique)", "xvalid"}, {"xvalid(A,Moving)", "xvalid"},
   {"simtub(->G,seed 7)", "simtub"}, {"simtub(A->G,Unique,seed 7)", "simtub"}, {"simtub(nbtuba=0)[fails]", "simtub"},
-  {"law_gaussian x3 (not judged)", "draws"}, {"law_set_random_seed(1234)+law_gaussian x3", "draws"},
+  {"law_gaussian x3 (unseeded)", "draws"}, {"law_set_random_seed(1234)+law_gaussian x3", "draws"},
   {"Vario::computeFromDb(A)", "vario"}, {"migrate(A->G)", "migrate"}, {"Grid conversions on G and G2", "grid"},
   {"OptDbg::define+kriging+undefine", "kriging"}, {"NeighMoving attach+select x3", "neigh"},
   {"mvndst(n=3)", "mvndst"}, {"mvndst(n=22)", "mvndst"},
@@ -208,7 +210,10 @@ static const OpInfo OPS[NOPS] = {
   {"filter(0) on + evalCovMatrixOptim(A,A) + off", "optim"}, {"filter(1) on + evalCovMatrixSymmetricOptim(B) + off", "optim"},
   {"optim(0) off + evalCovMatrixOptim(A,B) + on", "optim"}, {"ranges {2,1} + evalCovMatrixOptim(A,B) + ranges {4,2}", "optim"},
   {"setDriftIRF(0) + kriging(A->G,Unique) + delAllDrifts", "kriging"}, {"old style off + seeded draws + old style on", "draws"},
-  {"OptCustom define/undefine + OptCst define/restore", "options"}};
+  {"OptCustom define/undefine + OptCst define/restore", "options"},
+  {"mvndst(n=3, every variable unbounded)", "mvndst"}, {"mvndst(n=101)[refused]", "mvndst"}};
+// calls documented as consuming / reseeding the process-wide generator; every other call must leave it as it found it
+static bool is_random_op(int op) { return op == OP_SIMTUB_NC || op == OP_SIMTUB_C || op == OP_SIMTUB_FAIL || op == OP_DRAWS || op == OP_SEEDED_DRAWS || op == PAIR_OLDSTYLE_DRAWS; }
 // which documented option / content a new call touches (part of the finding key)
 static std::string option_kind(int op)
 {
@@ -386,6 +391,19 @@ static Obs apply_op(World& w, int op)
       w.M->setDriftIRF(0); o = apply_op(w, OP_KRIG_U); w.M->delAllDrifts(); break;
     }
     case PAIR_OLDSTYLE_DRAWS: { bool f = w.oldstyle; law_set_old_style(false); o = apply_op(w, OP_SEEDED_DRAWS); law_set_old_style(f); break; }
+    case OP_MVN_UNBOUNDED:
+    case OP_MVN_N101:
+    {
+      int n = op == OP_MVN_UNBOUNDED ? 3 : 101;
+      std::vector<double> lo(n, THRESH_INF), up(n, THRESH_SUP), cor(n * (n - 1) / 2, 0.25);
+      std::vector<int> inf(n, -1);
+      double err = 0, val = 0; int inform = 0;
+      mvndst(n, lo.data(), up.data(), inf.data(), cor.data(), 2000, 1e-3, 0, &err, &val, &inform);
+      o.tag += "inform=" + std::to_string(inform) + ";";
+      o.v.push_back(val); o.v.push_back(err);
+      o.failed = inform == 2;
+      break;
+    }
     case PAIR_OPTCUSTOM:
     {
       OptCustom::define("c10_probe", 3.); o.v.push_back(OptCustom::query("c10_probe", -1.)); OptCustom::undefine("c10_probe"); o.v.push_back(OptCustom::query("c10_probe", -1.));
@@ -399,8 +417,8 @@ static Obs apply_op(World& w, int op)
 
 // ---------------------------------------------------------------------------------------------------------------
 // hidden state, by component
-enum Comp { C_RNG, C_OPTDBG, C_SPACE, C_COVCACHE_M, C_MODEL_M, C_COVCACHE_M3, C_MODEL_M3, C_NEIGH_U, C_NEIGH_N, C_DB_A, C_DB_B, C_DB_E, C_DB_A3, C_DB_G, C_DB_G2, C_MATHSTATICS, C_OPTIONS, NCOMP };
-static const char* COMP_NAME[NCOMP] = {"rng", "optdbg", "defaultspace", "cov-cache(M)", "model(M)", "cov-cache(M3)", "model(M3)", "neighUnique", "neighMoving", "Db A", "Db B", "Db E", "Db A3", "grid G", "grid G2", "mathfunc-statics", "options(OptCst/OptCustom/old-style)"};
+enum Comp { C_RNG, C_RNGGEN, C_OPTDBG, C_SPACE, C_COVCACHE_M, C_MODEL_M, C_COVCACHE_M3, C_MODEL_M3, C_NEIGH_U, C_NEIGH_N, C_DB_A, C_DB_B, C_DB_E, C_DB_A3, C_DB_G, C_DB_G2, C_MATHSTATICS, C_OPTIONS, NCOMP };
+static const char* COMP_NAME[NCOMP] = {"rng", "rng(new-style stream)", "optdbg", "defaultspace", "cov-cache(M)", "model(M)", "cov-cache(M3)", "model(M3)", "neighUnique", "neighMoving", "Db A", "Db B", "Db E", "Db A3", "grid G", "grid G2", "mathfunc-statics", "options(OptCst/OptCustom/old-style)"};
 
 static void hash_sp(Hash& h, const SpacePoint& p)
 {
@@ -471,9 +489,9 @@ static std::vector<uint64_t> components(const World& w)
 {
   std::vector<uint64_t> c(NCOMP);
   {
-    Hash h; h.i(law_get_random_seed());
-    std::ostringstream os; os << Random_gen; h.s(os.str());
-    c[C_RNG] = h.h;
+    c[C_RNG] = (uint64_t)(unsigned int)law_get_random_seed();  // the value itself (not a hash): the oracle names what happened to it
+    std::ostringstream os; os << Random_gen;
+    c[C_RNGGEN] = Hash().s(os.str()).h;
   }
   {
     Hash h; h.u(OptDbg::_dbg.size());
@@ -649,8 +667,29 @@ VF_PART(hist)
     std::vector<int> dirty;
     for (int k = 0; k < NCOMP; k++) if (R.comps[n - 1][k] != REF.comps[m - 1][k]) dirty.push_back(k);
     if (!dirty.empty()) C.nontrivial(Hash().s(hist_str(h)).h);
+    // The generator is the one documented global a non-random call must leave as it found it (successful or failing)
+    if (!is_random_op(op))
+    {
+      bool seedMoved = R.comps[n][C_RNG] != R.comps[n - 1][C_RNG], genMoved = R.comps[n][C_RNGGEN] != R.comps[n - 1][C_RNGGEN];
+      if (seedMoved || genMoved)
+      {
+        // a seed above the modulus (the value a never-seeded process starts with) that comes back reduced is its own mechanism
+        bool normalised = seedMoved && R.comps[n - 1][C_RNG] >= 20000159ULL && R.comps[n][C_RNG] == R.comps[n - 1][C_RNG] % 20000159ULL;
+        std::string what = normalised ? ":unseeded-initial-value-normalised" : seedMoved ? ":seed" : ":new-style-stream";
+        std::string key = "rng-changed:" + fam + what;
+        C.outcome("GENERATOR-MOVED-BY-NON-RANDOM-CALL:" + fam + what);
+        C.violation(key, "'" + std::string(OPS[op].name) + "' (" + (R.last.failed ? "failing" : "successful") + ", not a random procedure) after the history [" + hist_names(History(h.begin(), h.end() - 1)) +
+                    "] left the process-wide generator in another state than it found it (" + (seedMoved ? "law_get_random_seed() " + std::to_string(R.comps[n - 1][C_RNG]) + " -> " + std::to_string(R.comps[n][C_RNG]) : "state of the new-style stream differs") + ")", hist_str(h));
+      }
+      else C.outcome("generator-untouched-by-non-random-call");
+    }
     if (is_config(op)) { C.outcome("config-call"); return sr; }
-    if (!R.last.judged) { C.skip(); C.outcome("not-judged:unseeded-draw"); return sr; }
+    bool prefixRandom = false;
+    for (size_t i = 0; i + 1 < h.size(); i++) if (is_random_op(h[i])) prefixRandom = true;
+    // unseeded draws are judged when nothing random precedes them: the generator must then be where the reference left it
+    bool judged = R.last.judged || (op == OP_DRAWS && !prefixRandom);
+    if (!judged) { C.skip(); C.outcome("not-judged:unseeded-draw-after-a-random-call"); return sr; }
+    if (op == OP_DRAWS) C.outcome("judged:unseeded-draw-after-non-random-calls");
     std::string why;
     int cmp = obs_cmp(R.last, ref, &why);
     std::string cls = m > 1 ? ":content-changed-by-config-calls" : "";
@@ -703,18 +742,20 @@ VF_PART(hist)
         History Po = Pfull;
         const HistRun& Fm = ref_of(Po);
         size_t pm = P.size(), fm = Fm.comps.size() - 2;
-        static const int PRIO[] = {C_COVCACHE_M, C_COVCACHE_M3, C_MATHSTATICS, C_OPTDBG, C_SPACE, C_OPTIONS, C_NEIGH_N, C_NEIGH_U, C_RNG, C_MODEL_M, C_MODEL_M3, C_DB_A, C_DB_B, C_DB_E, C_DB_A3, C_DB_G, C_DB_G2};
+        static const int PRIO[] = {C_COVCACHE_M, C_COVCACHE_M3, C_RNG, C_RNGGEN, C_MATHSTATICS, C_OPTDBG, C_SPACE, C_OPTIONS, C_NEIGH_N, C_NEIGH_U, C_MODEL_M, C_MODEL_M3, C_DB_A, C_DB_B, C_DB_E, C_DB_A3, C_DB_G, C_DB_G2};
         for (int k : PRIO)
           if (Rm.comps[pm][k] != Fm.comps[fm][k])
           {
             int step = 0;
             for (size_t q = 1; q <= pm; q++) if (Rm.comps[q][k] != Rm.comps[q - 1][k]) step = (int)q;
             mech = (k == C_COVCACHE_M || k == C_COVCACHE_M3) ? "stale-cache" : COMP_NAME[k];
+            if (k == C_RNG && Fm.comps[fm][k] >= 20000159ULL && Rm.comps[pm][k] == Fm.comps[fm][k] % 20000159ULL) mech = "rng(unseeded-initial-value-normalised)";
             mech += (step >= 1 && Rm.failed[step]) ? "-after-failure" : "-after-success";
             // which kind of call left it: tells a leak of a plain request from one that needs an option (filter, disabled optimisation ...)
             std::set<std::string> kinds;
             for (int q : P) if (q >= FIRST_NEW_OP) kinds.insert(option_kind(q));
             if (q_is_new(opk)) kinds.insert(option_kind(opk));
+            kinds.erase("");
             for (auto& kd : kinds) mech += ":with-" + kd;
             break;
           }
@@ -1740,6 +1781,114 @@ VF_PART(incr_db)
   DbContent c0{{{0, 1, 0, 2}, {0, 0, 1, 2}, {1, 2, 0.5, -1}}};
   explore<Db, DbContent>(C, "Db", 8, C.thorough() ? 4 : 3, [=] { return make_db_xz({c0.col[0], c0.col[1]}, {c0.col[2]}); }, [=] { return c0; }, db_apply, db_opname,
     [](const DbContent& c) { return make_db_xz({c.col[0], c.col[1]}, {c.col[2]}); }, db_answer, [](const DbContent& c) { Hash h; for (auto& v : c.col) h.vd(v); return h.h; });
+}
+
+
+// ================================================================================================================
+// part rng_neutral : a call that is not a random procedure leaves the process-wide generator as it found it
+//
+// E1 product: (call) x (seed S) x (generator style).  In a forked child: law_set_random_seed(S); one draw (so that the state
+// is not the freshly seeded one); CALL; then law_get_random_seed(), the state of the new-style stream and the next
+// law_uniform() must be what they are without the call.  The menu holds every non-random call of the hist alphabet plus
+// degenerate / failing variants of the functions that install a seed of their own and must restore the caller's
+// (mvndst / mvndst2n / mvndst4, ut_icosphere, DbGrid::getDiscretizedBlock, ACov::evalAverageDbToDb, block kriging ...).
+namespace rn
+{
+struct Call { std::string name, family; std::function<void(World&)> run; };
+static void run_mvndst(int n, const std::vector<int>& infin)
+{
+  int m = std::max(n, 1);
+  std::vector<double> lo(m, -1.), up(m, 1.), cor(m * (m - 1) / 2 + 1, 0.25);
+  std::vector<int> inf(m, 2);
+  for (size_t i = 0; i < infin.size() && i < (size_t)m; i++) inf[i] = infin[i];
+  double err = 0, val = 0; int inform = 0;
+  mvndst(n, lo.data(), up.data(), inf.data(), cor.data(), 2000, 1e-3, 0, &err, &val, &inform);
+}
+static std::vector<Call> calls()
+{
+  std::vector<Call> v;
+  for (int op = 0; op < NOPS; op++)
+    if (!is_random_op(op) && op != CF_OLDSTYLE_OFF && op != CF_OLDSTYLE_ON)  // switching the documented generator style legitimately changes the next draw
+      v.push_back({OPS[op].name, OPS[op].family, [op](World& w) { (void)apply_op(w, op); }});
+  v.push_back({"mvndst(n=3, all unbounded)", "mvndst", [](World&) { run_mvndst(3, {-1, -1, -1}); }});
+  v.push_back({"mvndst(n=1, unbounded)", "mvndst", [](World&) { run_mvndst(1, {-1}); }});
+  v.push_back({"mvndst(n=0)", "mvndst", [](World&) { run_mvndst(0, {}); }});
+  v.push_back({"mvndst(n=-1)", "mvndst", [](World&) { run_mvndst(-1, {}); }});
+  v.push_back({"mvndst(n=101)", "mvndst", [](World&) { run_mvndst(101, {}); }});
+  v.push_back({"mvndst(n=3, one bounded)", "mvndst", [](World&) { run_mvndst(3, {-1, -1, 2}); }});
+  v.push_back({"mvndst(n=3, two bounded)", "mvndst", [](World&) { run_mvndst(3, {-1, 2, 2}); }});
+  v.push_back({"mvndst(n=3, half lines)", "mvndst", [](World&) { run_mvndst(3, {0, 1, 2}); }});
+  auto m2 = [](double l0, double u0, double l1, double u1) {
+    double lo[2] = {l0, l1}, up[2] = {u0, u1}, mean[2] = {0.25, -0.5}, cor[4] = {2., 0.5, 0.5, 1.}, err, val; int inform;
+    mvndst2n(lo, up, mean, cor, 2000, 1e-3, 0, &err, &val, &inform); };
+  v.push_back({"mvndst2n(both unbounded)", "mvndst", [=](World&) { m2(THRESH_INF, THRESH_SUP, THRESH_INF, THRESH_SUP); }});
+  v.push_back({"mvndst2n(one bounded)", "mvndst", [=](World&) { m2(THRESH_INF, THRESH_SUP, -1., 1.); }});
+  v.push_back({"mvndst2n(both bounded)", "mvndst", [=](World&) { m2(-1., 0.5, -1., 1.); }});
+  auto m4 = [](bool unb) {
+    double lo[4], up[4], cor[16], err, val; int inform;
+    for (int i = 0; i < 4; i++) { lo[i] = unb ? THRESH_INF : -1.; up[i] = unb ? THRESH_SUP : 1.; for (int j = 0; j < 4; j++) cor[i * 4 + j] = i == j ? 1. : 0.25; }
+    mvndst4(lo, up, cor, 2000, 1e-3, 0, &err, &val, &inform); };
+  v.push_back({"mvndst4(all unbounded)", "mvndst", [=](World&) { m4(true); }});
+  v.push_back({"mvndst4(all bounded)", "mvndst", [=](World&) { m4(false); }});
+  v.push_back({"ut_icosphere(1)", "icosphere", [](World&) { int nt = 0; double* co = nullptr; (void)ut_icosphere(1, 0, &nt, &co); }});
+  v.push_back({"ut_icosphere(11)[refused]", "icosphere", [](World&) { int nt = 0; double* co = nullptr; (void)ut_icosphere(11, 0, &nt, &co); }});
+  v.push_back({"DbGrid::getDiscretizedBlock(random)", "discretize", [](World& w) { (void)w.G->getDiscretizedBlock({2, 2}, 0, false, true, 132); }});
+  v.push_back({"DbGrid::getDiscretizedBlock(regular)", "discretize", [](World& w) { (void)w.G->getDiscretizedBlock({2, 2}, 0, false, false, 132); }});
+  v.push_back({"evalAverageDbToDb(eps=0.1,seed=5)", "evalAverage", [](World& w) { (void)w.M->getCovAnisoList()->evalAverageDbToDb(w.A, w.B, 0, 0, 0.1, 5); }});
+  v.push_back({"evalAverageDbToDb(eps=0)", "evalAverage", [](World& w) { (void)w.M->getCovAnisoList()->evalAverageDbToDb(w.A, w.B, 0, 0, 0., 5); }});
+  v.push_back({"kriging(BLOCK, ndiscs {2,2})", "kriging", [](World& w) { Db* a = w.A->clone(); DbGrid* g = w.G->clone(); (void)kriging(a, g, w.M, w.N, EKrigOpt::BLOCK, true, true, false, {2, 2}); delete a; delete g; }});
+  // (kriging(BLOCK) with an ndiscs vector of the wrong size divides by zero, SIGFPE: a robustness matter, not in this menu)
+  v.push_back({"krigcell(ndiscs {2,2})", "kriging", [](World& w) { Db* a = w.A->clone(); DbGrid* g = w.G->clone(); (void)krigcell(a, g, w.M, w.N, true, true, {2, 2}); delete a; delete g; }});
+  v.push_back({"Db statistics + toString", "statistics", [](World& w) { (void)w.A->getMean("z1"); (void)w.A->getVariance("z1"); (void)w.A->getExtrema(0); (void)w.A->toString(); (void)w.G->toString(); }});
+  v.push_back({"serialization of Model / Db / NeighMoving", "serialization", [](World& w) { std::ostringstream os; w.M->_serialize(os, false); w.A->_serialize(os, false); w.N->_serialize(os, false); }});
+  v.push_back({"Model::toString + getMaximumDistance", "model", [](World& w) { (void)w.M->toString(); (void)w.M->getMaximumDistance(); }});
+  return v;
+}
+}  // namespace rn
+
+VF_PART(rng_neutral)
+{
+  static std::vector<rn::Call> cs = rn::calls();
+  static const int SEEDS[3] = {1234, 20000158, 7};
+  Space sp;
+  sp.axis("call", (int)cs.size()).axis("seed", 3).axis("style", 2);
+  for_each_case(C, sp, [&](uint64_t id, const std::vector<int>& idx) {
+    rn::Call& c = cs[idx[0]];
+    int S = SEEDS[idx[1]];
+    bool newstyle = idx[2] == 1;
+    ChildResult cr = run_child([&](int wfd) {
+      World* w = build_world();
+      if (newstyle) law_set_old_style(false);
+      auto gen = []() { std::ostringstream os; os << Random_gen; return Hash().s(os.str()).h; };
+      // reference: the same draws without the call
+      law_set_random_seed(S); double r1 = law_uniform(0., 1.); int refSeed = law_get_random_seed(); uint64_t refGen = gen(); double r2 = law_uniform(0., 1.);
+      // with the call
+      law_set_random_seed(S); double u1 = law_uniform(0., 1.);
+      c.run(*w);
+      int seed1 = law_get_random_seed(); uint64_t gen1 = gen(); double u2 = law_uniform(0., 1.);
+      char b[200];
+      snprintf(b, 200, "%d %d %d %d %.17g %.17g %d %d", (int)(u1 == r1), (int)(seed1 == refSeed), (int)(gen1 == refGen), (int)(u2 == r2), u2, r2, seed1, refSeed);
+      child_write(wfd, b); return 0; }, 60.);
+    C.eval();
+    C.nontrivial(id);
+    std::string style = newstyle ? "new-style" : "old-style";
+    int sameU1 = 0, sameSeed = 0, sameGen = 0, sameU2 = 0, seed1 = 0, refSeed = 0; double u2 = 0, r2 = 0;
+    if (!cr.clean() || cr.code != 0 || sscanf(cr.data.c_str(), "%d %d %d %d %lf %lf %d %d", &sameU1, &sameSeed, &sameGen, &sameU2, &u2, &r2, &seed1, &refSeed) != 8)
+    {
+      C.skip(); C.outcome("excluded:call-dies(" + cr.describe() + "):" + c.name);
+      return;
+    }
+    if (!sameU1) { fprintf(stderr, "harness error: seeding is not reproducible\n"); exit(2); }
+    if (sameSeed && sameGen && sameU2) { C.outcome("generator-untouched:" + style); }
+    else
+    {
+      std::string what = !sameSeed ? "seed" : !sameGen ? "new-style-stream" : "next-draw";
+      C.outcome("GENERATOR-MOVED:" + c.family + ":" + what + ":" + style);
+      C.violation("rng-changed:" + c.family + ":" + what, "'" + c.name + "' is not a random procedure but after law_set_random_seed(" + std::to_string(S) + "); law_uniform(); <call> (" + style +
+                  " generator) law_get_random_seed() = " + std::to_string(seed1) + " (without the call " + std::to_string(refSeed) + "), next law_uniform() = " + fmt(u2) + " (without the call " + fmt(r2) + ")", std::to_string(id));
+    }
+    if (id % 37 == 0) C.sample("{\"call\":" + jstr(c.name) + ",\"seed\":" + std::to_string(S) + ",\"style\":" + jstr(style) + "}");
+  });
 }
 
 int main(int argc, char** argv)
